@@ -7,7 +7,7 @@ package main
 // before the pruning stays valid as an under-approximation (removing edges only adds dominance relations).
 
 import (
-	"golang.org/x/tools/go/ssa"
+	"trzszlint/xssa"
 )
 
 var deadBlocks = map[*ssa.BasicBlock]bool{}
